@@ -31,8 +31,9 @@ type Cache[V any] struct {
 	stopCh    chan struct{}
 	maxTTL    int64
 	// Serializes writers: in the underlying map a Set that runs while another Set is
-	// growing the map can leave its key unreachable.
-	setLock sync.Mutex
+	// growing the map, or while a neighbouring key is being deleted, can leave its
+	// key unreachable.
+	writeLock sync.Mutex
 }
 
 // CacheOptions are options for NewCache.
@@ -100,17 +101,19 @@ func (c *Cache[V]) Set(key string, val V, ttl int64) {
 	}
 
 	exp := c.clock.Now().Add(time.Duration(ttl) * time.Second)
-	c.setLock.Lock()
+	c.writeLock.Lock()
 	c.m.Set(key, cacheEntry[V]{
 		val: val,
 		exp: exp,
 	})
-	c.setLock.Unlock()
+	c.writeLock.Unlock()
 }
 
 // Delete an item from the cache
 func (c *Cache[V]) Delete(key string) {
+	c.writeLock.Lock()
 	c.m.Del(key)
+	c.writeLock.Unlock()
 }
 
 // Cleanup removes all expired entries from the cache.
@@ -129,7 +132,9 @@ func (c *Cache[V]) Cleanup() {
 		return true
 	})
 
+	c.writeLock.Lock()
 	c.m.Del(keys...)
+	c.writeLock.Unlock()
 }
 
 // Reset removes all entries from the cache.
@@ -144,7 +149,9 @@ func (c *Cache[V]) Reset() {
 		return true
 	})
 
+	c.writeLock.Lock()
 	c.m.Del(keys...)
+	c.writeLock.Unlock()
 }
 
 func (c *Cache[V]) startBackgroundCleanup(d time.Duration) {
